@@ -175,6 +175,14 @@ def explicit_lookups(ctx, c, r, where, problems, n_present=3, n_absent=2):
     lst.reverse()
     if len(c.get_records()) != n or len(c.records) != n:
         problems.append("%s: mutating the list returned by .records changed the container" % where)
+    # ... also when the caller's list keeps its length: every read of .records is a fresh copy of the record list
+    lst2 = c.records
+    if lst2:
+        lst2.reverse()
+        lst2[0] = None
+    again = c.records
+    if again is lst2 or [id(x) for x in again] != [id(x) for x in c.get_records()]:
+        problems.append("%s: .records read after the caller changed the previous result in place differs from get_records()" % where)
     ctx.count("explicit_lookup_rounds")
 
 
